@@ -39,12 +39,42 @@ STATE_MEASURE = ('distinct (previous id, next id) pairs and (prev2, prev, '
                  'next) triples reached')
 
 
-def render(ids, crlf=False):
+def render(ids, crlf=False, style=None):
+    """style: optional list, one small int per section, selecting header
+    variations that never change whether the id may follow its predecessor
+    (extra options, blank lines before the header, a very long header)."""
     nl = b'\r\n' if crlf else b'\n'
     out = []
 
-    for sid in ids:
+    for i, sid in enumerate(ids):
         name = sid.lstrip('.')
+        st = style[i] if style and i < len(style) and \
+            isinstance(style[i], int) else 0
+        extra = b''
+
+        if st & 1 and i > 0:
+            out.append(nl * (1 + (st >> 4) % 3))    # blank lines
+
+        if st & 2:
+            extra = b', x-pad=' + b'p' * [40, 200, 9000][(st >> 6) % 3]
+
+        if name == 'diff' and st & 4:
+            out.append(b'#' + sid.encode() + b': length=2, type=' +
+                       (b'binary' if st & 8 else b'text') + extra + nl +
+                       b'x\n')
+            continue
+        elif name in ('preamble', 'diff') and st & 8:
+            out.append(b'#' + sid.encode() +
+                       b': length=2, line_endings=unix' + extra + nl +
+                       b'x\n')
+            continue
+        elif name in ('change', 'file') and st & 4:
+            out.append(b'#' + sid.encode() + b': encoding=latin-1' + extra
+                       + nl)
+            continue
+        elif extra and name in ('change', 'file') :
+            out.append(b'#' + sid.encode() + b':' + extra[1:] + nl)
+            continue
 
         if name == 'diffx':
             out.append(b'#' + sid.encode() + b': encoding=utf-8, version=1.0'
@@ -100,7 +130,10 @@ def generate(rng, tier, cls):
 
         prev = sid
 
+    style = [rng.below(256) if rng.chance(0.3) else 0 for _ in ids]
+
     return {'actors': [], 'schedule': [], 'faults': [], 'ids': ids,
+            'style': style if any(style) else [],
             'noise': pipe.gen_noise(rng),
             'crlf': rng.chance(0.15),
             'block_size': rng.choice([None, None, 1, 9, 97])}
@@ -155,14 +188,18 @@ def execute(scn, L):
         out.discarded = 'empty-sequence'
         return out
 
-    data = render(ids, crlf=bool(scn.get('crlf')))
+    data = render(ids, crlf=bool(scn.get('crlf')), style=scn.get('style'))
     k = first_illegal(ids)
     pipe.run_noise(scn, L, out)
     w = World(scn, L)
     recs, end, exc = read_all(w, data, block_size=scn.get('block_size'),
                               actor='R')
     out.absorb(w)
-    out.case_key = pipe.scn_digest([ids, bool(scn.get('crlf'))])
+    out.case_key = pipe.scn_digest([ids, bool(scn.get('crlf')),
+                                    scn.get('style')])
+
+    if scn.get('style'):
+        out.probe('styled_headers')
     got_ids = [r.get('section') if isinstance(r, dict) else None
                for r in recs]
     info = {'ids': ids, 'first_illegal': k, 'yielded': got_ids}
